@@ -223,13 +223,22 @@ impl<W: Write> CompressorWriter<W> {
         }
     }
     fn emit(&mut self) -> io::Result<()> {
-        let k = nd_usize();
-        assume(k <= ZERO.len());
-        self.inner.write_all(&ZERO[..k])
+        // nothing or a fixed-size piece: the *count* stays a constant for the symbolic executor
+        // (a symbolic count would drag the u32 conversion error path of WriterWithCount — a boxed
+        // `dyn Error` created and dropped — into every path)
+        if nd_bool() {
+            self.inner.write_all(&ZERO)
+        } else {
+            Ok(())
+        }
     }
     pub fn into_inner(mut self) -> W {
         // the real one finishes the stream (emits the last meta-block) before giving back `w`
-        let _ = self.emit();
+        // (an io::Error is forgotten, never dropped: its drop glue is what makes symbolic
+        //  execution of error paths explode)
+        if let Err(e) = self.emit() {
+            core::mem::forget(e);
+        }
         self.held = 0;
         self.inner
     }
